@@ -350,6 +350,13 @@ def carrier(kind, cfg, seqn, mode, sib):
         nodes['S'] = N('S', mode='async', params=[['a', ['in', 'N0']]], plan=splan)
         nodes['OUT'] = N('OUT', mode='thread', params=[['a', ['in', 'X']], ['b', ['in', 'S']]])
         order = ['N0', 'X', 'S', 'OUT']
+    elif kind == 'rec':
+        # X sits inside a recurrent subgraph: every iteration is a new execution with its own attempt budget
+        nodes['N0']['start_of'] = True
+        nodes['D'] = N('D', mode='async', params=[['a', ['in', 'X']]], kind='dest', recurrent=True,
+                       plan={'start': 'N0', 'want_iter': 2}, retry={'use_default': True})
+        nodes['OUT'] = N('OUT', mode='inline', params=[['a', ['rec', 'N0', 'D', 3]]])
+        order = ['N0', 'X', 'D', 'OUT']
     else:   # X is the first one-of candidate
         nodes['ALT'] = N('ALT', mode='async', params=[['a', ['in', 'N0']]])
         nodes['OUT'] = N('OUT', mode='thread', params=[['a', ['oneof', ['X', 'ALT']]]])
@@ -385,10 +392,10 @@ def work_c12(prop, tier, seed, widx, nworkers):
         nsched = 3
     acc.counters['configurations_total'] = len(allcfg) if widx == 0 else 0
     for cfg, seqn in mine:
-        kind = rng.choice(['chain', 'sibling', 'sibling', 'oneof'])
+        kind = rng.choice(['chain', 'sibling', 'sibling', 'oneof', 'rec'])
         mode = rng.choice(['async', 'thread', 'inline', 'process'])
         sib = rng.choice(['slow', 'fail'])
-        if 'Fatal' in seqn and kind == 'oneof':
+        if 'Fatal' in seqn and kind in ('oneof', 'rec'):
             kind = 'chain'
         prog = carrier(kind, cfg, seqn, mode, sib)
         acc.programs += 1
